@@ -178,7 +178,7 @@ Inductive has_type (sch : schema) : bool -> tref -> value -> Prop :=
                                             lookup m sch = Some (DObject fs k) -> fields_typed sch fs flds ->
                                             has_type sch entry (TNamed n) (VObj m flds)
 with fields_typed (sch : schema) : list (string * tref) -> list (string * value) -> Prop :=
-| ft_intro : forall fs flds, (forall f ft v, lookup f fs = Some ft -> lookup f flds = Some v -> has_type sch false ft v) ->
+| ft_intro : forall fs flds, (forall f ft, lookup f fs = Some ft -> exists v, lookup f flds = Some v /\ has_type sch false ft v) ->
                              fields_typed sch fs flds.
 
 Ltac unify_lookups :=
@@ -290,7 +290,8 @@ Section Soundness.
         destruct (lookup name flds) as [v'|] eqn:Ev; [|discriminate].
         destruct (eval sch tbl f ft sub v') as [j0| |] eqn:Ee;
           destruct (eval_fields sch tbl f tn fs flds r) as [[| | | | |kvs']| |] eqn:Er; try discriminate.
-        inversion He; subst. inversion Hft; subst.
+        inversion He; subst. inversion Hft as [fs0 flds0 Hall]; subst.
+        destruct (Hall name ft Ef) as [v0 [Hv0 Ht0]]. rewrite Ev in Hv0. inversion Hv0; subst.
         eapply cff_field; eauto.
         intros Hc; subst. rewrite String.eqb_refl in En; discriminate.
   Qed.
@@ -307,3 +308,22 @@ Definition ex_sel : list titem :=
                                  TInline "Obj" [] [TField "shade" "shade" [] [] None]])].
 Definition ex_data : value :=
   VObj "Query" [("n", VScalar (JNum 3)); ("obj", VObj "Obj" [("tags", VList [VScalar (JStr "a"); VNull]); ("shade", VEnum "DARK")])].
+
+Lemma ex_data_typed : has_type ex_sch false (TNamed "Query") ex_data.
+Proof.
+  eapply ht_obj; [reflexivity|]. constructor. intros f ft H. cbn [lookup] in H.
+  destruct (String.eqb f "obj") eqn:E1.
+  - apply String.eqb_eq in E1; subst. inversion H; subst. eexists; split; [reflexivity|].
+    eapply ht_obj; [reflexivity|]. constructor. intros g gt Hg. cbn [lookup] in Hg.
+    destruct (String.eqb g "tags") eqn:E2.
+    + apply String.eqb_eq in E2; subst. inversion Hg; subst. eexists; split; [reflexivity|].
+      apply ht_nonnull; [left; discriminate|]. apply ht_list. constructor.
+      * apply ht_nonnull; [left; discriminate|]. eapply ht_scalar; reflexivity.
+      * constructor; [|constructor]. apply ht_nonnull; [right; reflexivity|]. apply ht_null.
+    + destruct (String.eqb g "shade") eqn:E3; [|discriminate].
+      apply String.eqb_eq in E3; subst. inversion Hg; subst. eexists; split; [reflexivity|].
+      apply ht_nonnull; [left; discriminate|]. eapply ht_enum; [reflexivity|]. simpl; auto.
+  - destruct (String.eqb f "n") eqn:E2; [|discriminate].
+    apply String.eqb_eq in E2; subst. inversion H; subst. eexists; split; [reflexivity|].
+    apply ht_nonnull; [left; discriminate|]. eapply ht_scalar; reflexivity.
+Qed.
